@@ -56,6 +56,12 @@ def histories(tier):
         sc = [(code, 0, 1, 0, 0), (3, 0, size + 1, 0, 1)]
         out.append(('daqmx', [G.seg([(A, F.daqmx_enc(2, sc, [size + 4]))], chunks=2), G.seg([], meta=False, chunks=1),
                               G.seg([(A, ['SAME'])], newlist=False)]))
+    for code, tname in ((3, 'Int16'), (7, 'Int64'), (9, 'DoubleFloat')):
+        size = G.DAQMX_TYPES[code][0]
+        # a DAQmx raw data index on a channel with an explicit (non raw) data type
+        out.append(('daqmx', [G.seg([(A, F.daqmx_enc(2, [(code, 0, 1, 0, 0)], [size + 2], 'fc', tname)),
+                                     (B, F.daqmx_enc(2, [(3, 0, 0, 0, 0)], [size + 2]), [F._uprop('NI_Number_Of_Scales', 1)])], chunks=2),
+                              G.seg([], meta=False, chunks=1)]))
     out.append(('daqmx-dl', [G.seg([(A, F.daqmx_enc(3, [(0, 0, 5, 0, 0)], [2], 'dl')), (B, F.daqmx_enc(3, [(0, 0, 9, 0, 0)], [2], 'dl'))], chunks=2),
                              G.seg([], meta=False)]))
     return out
@@ -68,6 +74,24 @@ def with_order(hist, bits):
         s2['big'] = bool(b)
         out.append(s2)
     return out
+
+
+def _chunks_vs_read(data):
+    import io
+    tf = H.TdmsFile.open(io.BytesIO(data))
+    try:
+        for g in tf.groups():
+            for ch in g.channels():
+                if not any(k.startswith('NI_Number_Of_Scales') for k in ch.properties) and ch.scaler_data_types and \
+                        ch.data_type.__name__ == 'DaqMxRawData':
+                    continue   # no scaling information: chunk[:] is documented to raise
+                r = H.guarded(lambda: b''.join(H.norm_array(c[:])[2] for c in ch.data_chunks()))
+                full = H.guarded(lambda: H.norm_array(ch[:])[2])
+                if r[0] != 'ok' or full[0] != 'ok' or r[1] != full[1]:
+                    return 'chunk stream of %s differs from channel[:]: %r vs %r' % (ch.path, r[1][:16] if r[0] == 'ok' else r, full[1][:16] if full[0] == 'ok' else full)
+    finally:
+        tf.close()
+    return None
 
 
 def run_hist(item):
@@ -98,7 +122,12 @@ def run_hist(item):
                         if why:
                             bad = ('le-differs-from-reference', why)
                 else:
-                    if fam.startswith('daqmx'):
+                    if fam.startswith('daqmx') and lazy and raw_ts:
+                        # chunk streams hand out the segment arrays themselves: they must agree with the windowed read
+                        cw = _chunks_vs_read(data)
+                        if cw:
+                            bad = ('chunks-differ', cw)
+                    if bad is None and fam.startswith('daqmx'):
                         # DAQmx values are the buffer bytes in the segment's order: the logical content of a BE segment is
                         # the byte-swapped value, so compare with the reference of this very encoding
                         why = H.compare_with_ref(o[1], ref) if raw_ts else None
